@@ -1283,6 +1283,23 @@ def one_case(ctx, base, script, with_deepcopy=True):
         a = copy.deepcopy(old)
         put_default_value_objects(a)
         judge_pair(ctx, same, a, copy.deepcopy(a), 'identical-deepcopy-default-objects', witness)
+        # ... and when a SmartNIC of a hand-built sliver carries no service at all (comparing must not fail)
+        b = copy.deepcopy(old)
+        aci = b.attached_components_info
+        nics = [c for c in (aci.devices.values() if aci else []) if str(c.get_type()) == 'SmartNIC']
+        if nics:
+            from fim.slivers.network_service import NetworkServiceInfo
+            for k, c in enumerate(nics):
+                c.network_service_info = NetworkServiceInfo() if k % 2 == 0 else None
+            ctx.count('clause:identical-copy-smartnic-without-service')
+            try:
+                d = b.diff(copy.deepcopy(b))
+                if d is not None:
+                    ctx.violation('C17/identical-copy-differs:smartnic-without-service', 'comparing a sliver with an identical copy of itself '
+                                  'reports no difference', dict(witness=witness, diff=str(d)[:300]))
+            except Exception as e:
+                ctx.violation('C17/identical-copy-raises:smartnic-without-service', 'comparing a sliver with an identical copy of itself '
+                              f'reports no difference (raised {type(e).__name__}: {str(e)[:120]})', dict(witness=witness))
 
 
 def put_default_value_objects(node):
